@@ -68,7 +68,7 @@ func draw(t *rapid.T) *pbt.Case {
 		maxB = 20
 	}
 	c := &pbt.Case{}
-	g := gen.Default(gen.Regular()).Boost(2, gen.BarrierKinds...).Boost(2, "tags", "secondary", "mark", "join", "safedetails", "stack")
+	g := gen.Default(gen.Regular()).Boost(2, gen.BarrierKinds...).Boost(2, "tags", "secondary", "mark", "join", "safedetails", "stack", "telemetry")
 	c.Spec = g.Draw(t, rapid.IntRange(1, maxB).Draw(t, "budget"))
 	c.SetInt("decoded", rapid.IntRange(0, 1).Draw(t, "decoded"))
 	return c
@@ -93,6 +93,11 @@ func check(c *pbt.Case, r *pbt.R) {
 	}
 	shared, twin := es[0], es[1]
 	want := observe(twin)
+	// ... and executing alone twice gives the same result (an observer
+	// that modifies the error would show here even without a second goroutine).
+	if again := observe(twin); again != want {
+		r.Failf("a second call on the same error returns another result than the first", "spec %s\n%s", c.Spec, firstDiff(again, want))
+	}
 	for round := 0; round < rounds; round++ {
 		var wg sync.WaitGroup
 		res := make([]string, goroutines)
